@@ -168,7 +168,13 @@ class SyncedList(SyncedCollection, MutableSequence):
                     new_data = data[len(self) :]
                     if not _validate:
                         self._validate(new_data)
-                    self.extend(new_data)
+                    # This merge also runs on behalf of read operations, which
+                    # take no lock; going through the public ``extend`` would
+                    # acquire this collection's lock from inside a read (and
+                    # with it allow lock-order cycles between collections).
+                    self._data.extend(
+                        [self._from_base(value, parent=self) for value in new_data]
+                    )
         else:
             raise ValueError(
                 "Unsupported type: {}. The data must be a non-string sequence or None.".format(
